@@ -202,6 +202,12 @@ def enum_api_nlri():
     for s in ('2001:db8::', '::', '::ffff:1.2.3.4'):
         for ln in (0, 1, 32, 33, 127, 128, 129, 255, 256, 384, U32MAX): out.append(napi('nlri:prefix_len_v6', [1, S(s), ln]))
     for s in BAD4 + BAD6 + ['10.0.0.0/8', '/', '1.2.3.4/', '/8']: out.append(napi('nlri:prefix_text', [1, S(s), 8]))
+    for m in (0, 1, 7, 8, 9, 16, 17, 24, 25, 31, 32):
+        for s in ('10.0.0.0', '10.0.0.1', '10.0.1.0', '10.1.0.0', '10.128.0.0', '0.0.0.1'):
+            out.append(napi('nlri:host_octets', [1, S(s), m])); out.append(napi('nlri:host_octets', [2, [100], S(s), m])); out.append(napi('nlri:host_octets', [3, [100], [1, 1, 1], S(s), m]))
+    for m in (0, 8, 9, 64, 120, 121, 128):
+        for s in ('2001:db8::', '2001:db8::1', '2001::', '::1', '2001:db8:0:1::'):
+            out.append(napi('nlri:host_octets', [1, S(s), m])); out.append(napi('nlri:host_octets', [2, [100], S(s), m]))
     for s in GOOD4 + GOOD6: out.append(napi('nlri:prefix_text', [1, S(s), 0]))
     # labeled: 24 * labels + prefix bits against the one-octet length, label values at 20 bits
     for v6, s, w in ((False, '10.0.0.0', 32), (True, '2001:db8::', 128)):
@@ -224,11 +230,15 @@ def enum_api_nlri():
 
 def enum_nlri():
     out = []
-    for m in (0, 1, 7, 8, 9, 31, 32): out.append(nlri('nlri_in:v4_mask', [4, 0x0a010203, m]))
+    def clean(a, m, w): return a >> (8 * (w - (m + 7) // 8)) << (8 * (w - (m + 7) // 8))
+    for m in (0, 1, 7, 8, 9, 15, 16, 17, 23, 24, 25, 31, 32):
+        out.append(nlri('nlri_in:v4_mask', [4, clean(0x0a81ff03, m, 4), m]))
+        out.append(nlri('nlri_in:host_octets', [4, 0x0a81ff03, m]))
     for m in (0, 1, 64, 127, 128):
-        for a in (0, 1, 0xffff01020304, (0x20010db8 << 96) | 1, 2 ** 128 - 1): out.append(nlri('nlri_in:v6_mask', [6, a, m]))
-    for nl in (1, 2, 9): out.append(nlri('nlri_in:labeled', [14, [100 + k for k in range(nl)], 0x0a000000, 255 - 24 * nl if 255 - 24 * nl <= 32 else 32]))
-    for nl in (1, 5): out.append(nlri('nlri_in:labeled', [16, [2 ** 20 - 1] * nl, (0x20010db8 << 96), 255 - 24 * nl if 255 - 24 * nl <= 128 else 128]))
+        for a in (0, 1, 0xffff01020304, (0x20010db8 << 96) | 1, 2 ** 128 - 1): out.append(nlri('nlri_in:v6_mask', [6, clean(a, m, 16), m]))
+    for nl in (1, 2, 9): out.append(nlri('nlri_in:labeled', [14, [100 + k for k in range(nl)], 0x0a000000, 8]))
+    out.append(nlri('nlri_in:labeled', [14, [100] * 9, 0x0a000000, 32])); out.append(nlri('nlri_in:labeled', [14, [100] * 10, 0x0a00, 15]))
+    for nl in (1, 5): out.append(nlri('nlri_in:labeled', [16, [2 ** 20 - 1] * nl, clean(0x20010db8 << 96, 255 - 24 * nl if 255 - 24 * nl <= 128 else 128, 16), 255 - 24 * nl if 255 - 24 * nl <= 128 else 128]))
     for rd in ([0, 0, 0], [0, 65535, U32MAX], [1, U32MAX, 65535], [1, 0, 0], [2, U32MAX, 65535], [2, 0, 0]):
         out.append(nlri('nlri_in:vpn_rd', [24, [100], rd, 0x0a000000, 24])); out.append(nlri('nlri_in:vpn_rd', [26, [100, 3], rd, 1, 128]))
     for nl in (1, 6, 7): out.append(nlri('nlri_in:vpn_bits', [24, [5] * nl, [0, 1, 1], 0x0a000000, min(32, 255 - 64 - 24 * nl)]))
@@ -316,3 +326,82 @@ def enum_local_path():
 
 def enum_all():
     return enum_wire() + enum_api_attr() + enum_api_nlri() + enum_nlri() + enum_evpn() + enum_local_path()
+
+# ---------------------------------------------------------------- kind 8: API NLRI messages of the other families
+FS4, FS6, FSV4, FSV6 = (1 << 16) | 133, (2 << 16) | 133, (1 << 16) | 134, (2 << 16) | 134
+SR4, SR6, RTCF, MUP4, MUP6, V4U = (1 << 16) | 73, (2 << 16) | 73, (1 << 16) | 132, (1 << 16) | 85, (2 << 16) | 85, (1 << 16) | 1
+END = 0x80
+
+def xn(cls, fam, x): return {'k': 8, 'fam': fam, 'x': x, 'cls': cls}
+
+def fs_ops_body(n, wide_last=False):
+    """n operators of two octets each (the last one three octets when wide_last), END on the last"""
+    ops = [[0x01, 6] for _ in range(n)]
+    if wide_last: ops[-1] = [0x01, 0x1234]
+    ops[-1] = [ops[-1][0] | END, ops[-1][1]]
+    return ops
+
+def fs_rules_of_len(target):
+    """rules whose encoded body is exactly `target` octets (one component type 3: 1 + 2n, or 2n + 2 with a wide last operator)"""
+    if target % 2: return [[2, 3, fs_ops_body((target - 1) // 2)]]
+    return [[2, 3, fs_ops_body((target - 2) // 2, True)]]
+
+def enum_xnlri():
+    out = []
+    rdv = [1, 65000, 1]
+    ok = [[2, 3, [[0x81, 6]]]]
+    # flowspec: the rule oneof, prefix / component types on both sides of the valid ranges, per family
+    for fam in (FS4, FS6):
+        v6 = fam == FS6
+        p = S('2001:db8::') if v6 else S('10.0.0.0')
+        for r in ([0], [3]): out.append(xn('fs:rule_oneof', fam, [10, [r]])); out.append(xn('fs:rule_oneof', fam, [10, ok + [r]]))
+        for t in (0, 1, 2, 3, 255, 256, 257, 258): out.append(xn('fs:prefix_type', fam, [10, [[1, t, 8, p, 0]]]))
+        for t in (0, 1, 2, 3, 4, 11, 12, 13, 14, 255, 256, 259, U32MAX): out.append(xn('fs:component_type', fam, [10, [[2, t, [[0x81, 1]]]]]))
+        w = 128 if v6 else 32
+        for ln in (0, 1, 7, 8, 9, w - 1, w, w + 1, 255, 256, 256 + 8, U32MAX): out.append(xn('fs:prefix_len_edge', fam, [10, [[1, 1, ln, p, 0]]]))
+        for off in (0, 1, 8, 255, 256, U32MAX): out.append(xn('fs:prefix_offset', fam, [10, [[1, 2, 8, p, off]]]))
+        for s in ('', 'bad', '10.0.0.0', '2001:db8::', '10.0.0.0/8', '::ffff:1.2.3.4'): out.append(xn('fs:prefix_text', fam, [10, [[1, 1, 8, S(s), 0]]]))
+        # operators: none, END missing / in the middle / on each, length bits set, op beyond u8, value at every width switch
+        for ops in ([], [[0x01, 6]], [[0x81, 6]], [[0x81, 6], [0x01, 7]], [[0x01, 6], [0x81, 7]], [[0x81, 6], [0x81, 7]], [[0x01, 6], [0x01, 7]],
+                    [[0x91, 6]], [[0xb1, 6]], [[0x181, 6]], [[0x100, 6], [0x81, 1]], [[U32MAX, 6]], [[0xc5, 6]], [[0x80, 0]]):
+            out.append(xn('fs:operator_list', fam, [10, [[2, 5, ops]]]))
+        for v in (0, 0xff, 0x100, 0xffff, 0x10000, 0xffffffff, 0x100000000, 2 ** 64 - 1): out.append(xn('fs:value_width', fam, [10, [[2, 10, [[0x81, v]]]]]))
+        out.append(xn('fs:no_rules', fam, [10, []]))
+        out.append(xn('fs:duplicate_and_order', fam, [10, [[2, 5, [[0x81, 1]]], [2, 5, [[0x81, 2]]]]])); out.append(xn('fs:duplicate_and_order', fam, [10, [[2, 6, [[0x81, 1]]], [2, 3, [[0x81, 2]]]]]))
+        # encoded length on both sides of the one / two octet length prefix and of its 12-bit limit
+        for target in (237, 238, 239, 240, 241, 242, 4093, 4094, 4095, 4096, 4097, 4098, 8191):
+            out.append(xn('fs:body_length_edge', fam, [10, fs_rules_of_len(target)]))
+        for k in (1, 2, 3, 4, 12): out.append(xn('fs:many_components', fam, [10, [[2, 3 + i, [[0x81, i]]] for i in range(k)]]))
+    for fam, x in ((V4U, [10, ok]), (FSV4, [10, ok]), (FS4, [11, rdv, ok]), (V4U, [11, rdv, ok]), (FSV4, [11, rdv, ok]), (FSV6, [11, rdv, ok]), (FSV6, [11, rdv, [[1, 1, 64, S('2001:db8::'), 0]]]),
+                   (FSV4, [11, [0], ok]), (FSV4, [11, [1, 65536, 1], ok]), (FSV4, [11, [2, S('1.2.3.4'), 65536], ok]), (FSV4, [11, [3, 1, 65535], ok])):
+        out.append(xn('fs:family_and_rd', fam, x))
+    for target in (229, 230, 231, 232, 233, 4087, 4088, 4089): out.append(xn('fs:vpn_body_length_edge', FSV4, [11, rdv, fs_rules_of_len(target)]))
+    # SR policy
+    for fam in (SR4, SR6, V4U):
+        for ln in (0, 3, 4, 5, 15, 16, 17, 32): out.append(xn('srpolicy:endpoint_len', fam, [12, 96, 1, 2, [1] * ln]))
+    for length in (0, 96, 192, 255, 256, U32MAX): out.append(xn('srpolicy:length_field', SR4, [12, length, U32MAX, 0, [192, 0, 2, 1]]))
+    # RTC
+    for asn in (0, 1, 65535, 65536, U32MAX):
+        out.append(xn('rtc:wildcards', RTCF, [13, asn, []])); out.append(xn('rtc:wildcards', RTCF, [13, asn, [0]]))
+        out.append(xn('rtc:exact', RTCF, [13, asn, [1, 1, 2, 65000, 100]]))
+    for rt in ([1, 1, 2, 65535, U32MAX], [1, 1, 2, 65536, 1], [1, 0, 2, 1, 1], [1, 1, 3, 1, 1], [1, 1, 0, 1, 1], [1, 1, 258, 1, 1], [2, 1, 2, S('1.2.3.4'), 65535], [2, 1, 2, S('1.2.3.4'), 65536],
+               [2, 1, 2, S('bad'), 1], [2, 1, 3, S('1.2.3.4'), 1], [3, 1, 2, U32MAX, 65535], [3, 1, 2, 1, 65536], [3, 1, 9, 1, 1]):
+        out.append(xn('rtc:route_target_forms', RTCF, [13, 65001, rt]))
+    # MUP
+    for fam, p, a in ((MUP4, '10.0.0.0', '192.0.2.1'), (MUP6, '2001:db8::', '2001:db8::1')):
+        w = 32 if fam == MUP4 else 128
+        for ln in (0, 1, w - 1, w, w + 1, 128, 129, 255, 256):
+            out.append(xn('mup:prefix_len_edge', fam, [14, rdv, S('%s/%d' % (p, ln))])); out.append(xn('mup:prefix_len_edge', fam, [16, rdv, S('%s/%d' % (p, ln)), 1, 9, w, S(a), 0, []]))
+        for s in ('', p, '/8', p + '/', p + '/x', 'bad/8', p + '/8/8', p + '/-1', p + '/+8', p + '/08'): out.append(xn('mup:prefix_text', fam, [14, rdv, S(s)]))
+        for s in ('', a, 'bad', '10.0.0.1', '::1'): out.append(xn('mup:address_text', fam, [15, rdv, S(s)])); out.append(xn('mup:address_text', fam, [17, rdv, w, S(s), 5]))
+        for q in (0, 255, 256, U32MAX): out.append(xn('mup:qfi_edge', fam, [16, rdv, S(p + '/24'), U32MAX, q, w, S(a), 0, []]))
+        for sl, src in ((0, ''), (0, a), (w, a), (w, ''), (w, 'bad'), (5, a)): out.append(xn('mup:source_address', fam, [16, rdv, S(p + '/24'), 1, 9, w, S(a), sl, S(src)]))
+        for el in (0, 1, 31, 32, 33, 64, 128, 129, 160, 161, 255, 256, U32MAX): out.append(xn('mup:endpoint_len_edge', fam, [17, rdv, el, S(a), 0x01020304]))
+        for rdx in ([0], [1, 65536, 1], [2, S('x'), 1]):
+            for x in ([14, rdx, S(p + '/8')], [15, rdx, S(a)], [16, rdx, S(p + '/8'), 1, 9, w, S(a), 0, []], [17, rdx, w, S(a), 1]): out.append(xn('mup:rd_edge', fam, x))
+    out.append(xn('mup:wrong_family', V4U, [14, rdv, S('10.0.0.0/8')])); out.append(xn('mup:wrong_family', MUP4, [14, rdv, S('2001:db8::/32')])); out.append(xn('mup:wrong_family', MUP6, [15, rdv, S('192.0.2.1')]))
+    return out
+
+_enum_all_core = enum_all
+def enum_all():
+    return _enum_all_core() + enum_xnlri()
